@@ -71,8 +71,16 @@ def run(ctx):
         calls, steps, impl = [], [], []
         exact = [Fraction(v) for v in vals]
         ok = True
+        external = rng.random() < 0.25      # a checkpoint is loaded after the scheduler was constructed (resume / roll-back)
+        writes = {}
         for _c in range(ncalls):
             p._steps += rng.choice([0, 1, 1, 2, 5])
+            if external and rng.random() < 0.4:
+                j = rng.choice([2, 3, 4, 5])
+                v = Fraction(rng.choice([1, 3, 5]), 2 ** rng.randrange(1, 6))
+                p.load_state_dict({'steps': p._steps, NAMES[j]: float(v)}, compute_inverses=False)
+                exact[j] = v
+                writes.setdefault(_c, []).append((j, v))
             arg = rng.choice([None, None, rng.randrange(0, 9)])
             calls.append(arg)
             steps.append(p._steps)
@@ -118,6 +126,8 @@ def run(ctx):
         # oracle: recompute in Fractions, independent of the model
         cur = [Fraction(v) for v in vals]
         for i, w in enumerate(want[:len(impl)]):
+            for j_, v_ in writes.get(i, []):
+                cur[j_] = v_          # what load_state_dict restored is what the next scheduler step multiplies
             for j, ab in enumerate(lams):
                 if ab is None:
                     continue
@@ -129,6 +139,10 @@ def run(ctx):
                 ctx.fail(f'call {i}: parameters {impl[i]} differ from the fold {",".join(rat(x) for x in cur)}',
                          case, 'fold-mismatch')
                 break
+        if writes:
+            ctx.count('external-writes (oracle only)')
+            ctx.case(('ext', str(case), str(writes)), nontrivial=True)
+            continue
         lines.append('sched p=' + ','.join(rat(v) for v in vals) + ' lam='
                      + '|'.join('-' if l is None else f'{rat(l[0])}:{rat(l[1])}' for l in lams)
                      + ' calls=' + ','.join('-' if c is None else str(c) for c in calls[:len(impl)])
